@@ -70,7 +70,8 @@ fn ts(s: i64) -> Timestamp {
   Timestamp::from_unix(s).unwrap()
 }
 
-pub fn credential_validation(_cex: &Value) -> Result<String, String> {
+pub fn credential_validation(cex: &Value) -> Result<String, String> {
+  let only: Option<String> = cex.get("only").and_then(Value::as_str).map(str::to_owned);
   let r = no_panic(|| -> Vec<String> {
     let log = std::cell::RefCell::new(Vec::<String>::new());
     let validator = JwtCredentialValidator::with_signature_verifier(JwsVerifierFn::from(toy_verify));
@@ -204,6 +205,59 @@ pub fn credential_validation(_cex: &Value) -> Result<String, String> {
       let jwt = sign_jwt(&v.to_string(), Some(&kid), None, &method_key(ISSUER, "#assert"));
       expect("vc.expirationDate without exp, expiry bound after it", run(&jwt, &issuer, &base().earliest_expiry_date(ts(t0 + 5000)), FailFast::FirstError), false);
     }
+    // ---- unit bodies: structure and status
+    {
+      let signed = |v: &serde_json::Value| sign_jwt(&v.to_string(), Some(&kid), None, &method_key(ISSUER, "#assert"));
+      let base_claims: serde_json::Value = serde_json::from_str(&claims).unwrap();
+      // context order: the base context has to be the first entry
+      for (name, ctx, want) in [
+        ("base context first of two", serde_json::json!(["https://www.w3.org/2018/credentials/v1", "https://www.w3.org/2018/credentials/examples/v1"]), true),
+        ("base context second of two", serde_json::json!(["https://www.w3.org/2018/credentials/examples/v1", "https://www.w3.org/2018/credentials/v1"]), false),
+        ("base context missing", serde_json::json!(["https://www.w3.org/2018/credentials/examples/v1"]), false),
+      ] {
+        let mut v = base_claims.clone();
+        v["vc"]["@context"] = ctx;
+        for ff in [FailFast::FirstError, FailFast::AllErrors] {
+          if run(&signed(&v), &issuer, &base(), ff).is_ok() != want {
+            log.borrow_mut().push(format!("[unit] structure: {name}: {}", if want { "rejected" } else { "accepted" }));
+          }
+        }
+      }
+      let mut v = base_claims.clone();
+      v["vc"]["type"] = serde_json::json!(["UniversityDegreeCredential"]);
+      if run(&signed(&v), &issuer, &base(), FailFast::FirstError).is_ok() {
+        log.borrow_mut().push("[unit] structure: base type missing: accepted".into());
+      }
+      // status: issuer document with a bitmap service in which index 42 is revoked
+      use identity_credential::revocation::{RevocationBitmap, RevocationDocumentExt};
+      use identity_credential::validator::StatusCheck;
+      let mut issuer_rb = issuer.clone();
+      let sid = DIDUrl::parse(format!("{ISSUER}#revocation")).unwrap();
+      let mut bm = RevocationBitmap::new();
+      bm.revoke(42);
+      issuer_rb.insert_service(bm.to_service(sid.clone()).unwrap()).unwrap();
+      let status = |idx: serde_json::Value, id_idx: &str, ty: &str| serde_json::json!({"id": format!("{ISSUER}?index={id_idx}#revocation"), "type": ty, "revocationBitmapIndex": idx});
+      let cases: Vec<(&str, serde_json::Value, StatusCheck, bool)> = vec![
+        ("revoked index, strict", status(serde_json::json!("42"), "42", "RevocationBitmap2022"), StatusCheck::Strict, false),
+        ("revoked index, SkipUnsupported", status(serde_json::json!("42"), "42", "RevocationBitmap2022"), StatusCheck::SkipUnsupported, false),
+        ("revoked index, SkipAll", status(serde_json::json!("42"), "42", "RevocationBitmap2022"), StatusCheck::SkipAll, true),
+        ("valid index, strict", status(serde_json::json!("7"), "7", "RevocationBitmap2022"), StatusCheck::Strict, true),
+        ("index as a JSON number, SkipUnsupported", status(serde_json::json!(42), "42", "RevocationBitmap2022"), StatusCheck::SkipUnsupported, false),
+        ("index property and id query disagree, SkipUnsupported", status(serde_json::json!("42"), "7", "RevocationBitmap2022"), StatusCheck::SkipUnsupported, false),
+        ("index property and id query disagree, strict", status(serde_json::json!("42"), "7", "RevocationBitmap2022"), StatusCheck::Strict, false),
+        ("other status type, SkipUnsupported", status(serde_json::json!("42"), "42", "SomethingElse2020"), StatusCheck::SkipUnsupported, true),
+        ("other status type, strict", status(serde_json::json!("42"), "42", "SomethingElse2020"), StatusCheck::Strict, false),
+      ];
+      for (name, st, mode, want) in cases {
+        let mut v = base_claims.clone();
+        v["vc"]["credentialStatus"] = st;
+        let got = run(&signed(&v), &issuer_rb, &base().status_check(mode), FailFast::FirstError).is_ok();
+        if got != want {
+          log.borrow_mut().push(format!("[unit] status: {name}: {}", if want { "rejected" } else { "accepted" }));
+        }
+      }
+      let _ = issuer_rb.resolve_revocation_bitmap(sid.into());
+    }
     // subject-holder relationship
     let holder = Url::parse(HOLDER).unwrap();
     let stranger = Url::parse(OTHER).unwrap();
@@ -219,8 +273,14 @@ pub fn credential_validation(_cex: &Value) -> Result<String, String> {
   });
   match r {
     Err(msg) => Ok(format!("credential validation panicked: {msg}")),
-    Ok(log) if !log.is_empty() => Ok(format!("{} deviations, e.g. {}", log.len(), log[..log.len().min(4)].join("; "))),
-    Ok(_) => Err("credential validation battery: all expectations met".to_owned()),
+    Ok(log) => {
+      let log: Vec<String> = log.into_iter().filter(|l| only.as_ref().map(|o| l.contains(o.as_str())).unwrap_or(true)).collect();
+      if log.is_empty() {
+        Err("credential validation battery: all expectations met".to_owned())
+      } else {
+        Ok(format!("{} deviations, e.g. {}", log.len(), log[..log.len().min(4)].join("; ")))
+      }
+    }
   }
 }
 
